@@ -20,7 +20,7 @@ var props = map[string]propDef{
 		},
 	},
 	"DBG": {
-		Groups: []string{"layout", "vocab", "rating", "nomenclature", "len", "formula"},
+		Groups: []string{"layout", "vocab", "rating", "nomenclature", "len", "formula", "v4tables"},
 		Rules:  []string{"R*"},
 		Meta:   propMeta{Level: "other", Explanation: "debug"},
 	},
